@@ -500,6 +500,24 @@ def run(ctx):
         chk.violation("R20.b", pso, None, "_plot_scheduled_operation does not draw exactly one broken_barh")
     else:
         b = bb[0]
+        # the bar is drawn unconditionally: no early exit before it and no
+        # enclosing condition (a zero-duration operation still gets its bar)
+        pp = source_pos(pso.node)
+        early = [n for n in own_nodes(pso.node) if isinstance(n, (ast.Return, ast.Raise, ast.Continue, ast.Break)) and pp(n) < pp(b)]
+        cur, conds = pso.module.parents.get(b), []
+        while cur is not None and cur is not pso.node:
+            if isinstance(cur, (ast.If, ast.While, ast.For, ast.Try)):
+                conds.append(cur)
+            cur = pso.module.parents.get(cur)
+        if early or conds:
+            ok = False
+            w = (early or conds)[0]
+            chk.violation(
+                "R20.b", pso, w,
+                f"the bar of a scheduled operation is drawn only conditionally (`{ast.unparse(w)[:60]}` comes first): some scheduled "
+                "operations (e.g. those of zero duration) get no bar, so the chart no longer has one bar per operation",
+                loc=pso.loc(w),
+            )
         xr = b.args[0] if b.args else None
         defs = ctx.flow.defs(pso)
 
@@ -624,6 +642,37 @@ def run(ctx):
                 if skipping:
                     okc = False
                     chk.violation("R20.c", frames_raw, lp, "frames are produced conditionally: some steps of the history have no frame", loc=frames.loc(lp))
+    # the horizon handed to the plot is the makespan of the whole history: the
+    # maximum end time / a schedule's makespan(), never the end of one record
+    # (dispatch order is not completion order)
+    if okc:
+        for c in plot:
+            for a in c.args[1:2]:
+                defs_ = ctx.flow.defs(frames)
+                exprs = [a] + ([d[1] for d in defs_.of(a.id) if d[1] is not None] if isinstance(a, ast.Name) else [])
+                # follow one more level (names bound from a tuple of branch values)
+                more = []
+                for e in exprs:
+                    for x in ast.walk(e):
+                        if isinstance(x, ast.Name) and x.id != getattr(a, "id", None):
+                            more += [d[1] for d in defs_.of(x.id) if d[1] is not None]
+                for e in exprs + more:
+                    for x in ast.walk(e):
+                        if (
+                            isinstance(x, ast.Attribute) and x.attr == "end_time" and isinstance(x.value, ast.Subscript)
+                            and isinstance(x.value.slice, (ast.Constant, ast.UnaryOp))
+                        ):
+                            okc = False
+                            chk.violation(
+                                "R20.c", frames_raw, x,
+                                f"the time horizon of the frames is `{ast.unparse(x)}`, the end of one record of the history: the "
+                                "last dispatched operation need not be the one that finishes last, so the axis ends before the "
+                                "makespan and bars are cut off",
+                                loc=frames.loc(x),
+                            )
+                            break
+                    if not okc:
+                        break
     if okc:
         chk.ok("R20.c", frames_raw.qualname, frames.loc(lp), "frame k: dispatch record k, plot dispatcher.schedule, save as k")
     # the solver branch must replay on a reset dispatcher with the observer detached
